@@ -182,7 +182,7 @@ ORACLES = {"extract": o_extract, "expand": o_expand, "hkdf": o_hkdf, "keygen": o
            "keygen_retry": o_keygen_retry}
 
 # ------------------------------------------------------------------------------------
-LENS = (0, 1, 31, 32, 33, 63, 64, 65, 127, 128, 129)
+LENS = (0, 1, 31, 32, 33, 63, 64, 65, 127, 128, 129, 254, 255, 256, 257, 299, 300)
 L_SPECIAL = (0, 1, 31, 32, 33, 63, 64, 65, 8128, 8129, 8159, 8160)
 
 
@@ -191,7 +191,9 @@ def s_bin():
     # a zero byte; the length suffix of KeyGen)
     tail = st.tuples(st.binary(max_size=70), st.sampled_from([b"\x01", b"\x02", b"\xff", b"\x00", b"\x00\x30"])).map(
         lambda t: t[0] + t[1])
-    return st.one_of(sized_binary(LENS, 300), sized_binary(LENS, 300), tail).map(hx)
+    # every length 0..300 with equal weight (st.binary alone is biased towards short strings)
+    anylen = st.integers(0, 300).flatmap(lambda k: st.binary(min_size=k, max_size=k))
+    return st.one_of(sized_binary(LENS, 300), sized_binary(LENS, 300), tail, anylen).map(hx)
 
 
 def s_L():
@@ -202,7 +204,9 @@ def t_hkdf(ctx, shard, n):
     a = vectors.HKDF_A1
     ex_extract = [{"salt": hx(a["salt"]), "ikm": hx(a["ikm"])}, {"salt": "", "ikm": ""}]
     ex_expand = [{"prk": hx(a["prk"]), "info": hx(a["info"]), "L": a["L"]}] + \
-                [{"prk": hx(a["prk"]), "info": "", "L": L} for L in L_SPECIAL]
+                [{"prk": hx(a["prk"]), "info": "", "L": L} for L in L_SPECIAL] + \
+                [{"prk": hx(a["prk"]), "info": hx(bytes(range(256))[:k] + bytes(max(0, k - 256))), "L": 42}
+                 for k in (255, 256, 257, 300)]
     drive(ctx, f"extract{shard}", st.fixed_dictionaries({"salt": s_bin(), "ikm": s_bin()}),
           lambda c: o_extract(ctx, c), n, ex_extract if shard == 0 else ())
     drive(ctx, f"expand{shard}", st.fixed_dictionaries({"prk": s_bin(), "info": s_bin(), "L": s_L()}),
